@@ -290,12 +290,9 @@ func c07CompositeFields(file string, fd *ast.FuncDecl, arg string) []string {
 	var out []string
 	found := false
 	ast.Inspect(fd.Body, func(n ast.Node) bool {
-		r, ok := n.(*ast.ReturnStmt)
-		if !ok || len(r.Results) != 1 || found {
-			return true
-		}
-		cl, ok := r.Results[0].(*ast.CompositeLit)
-		if !ok {
+		// the descriptor literal of the function, returned directly or through a local
+		cl, ok := n.(*ast.CompositeLit)
+		if !ok || found || len(cl.Elts) == 0 {
 			return true
 		}
 		found = true
@@ -314,7 +311,7 @@ func c07CompositeFields(file string, fd *ast.FuncDecl, arg string) []string {
 		return false
 	})
 	if !found {
-		fail("%s: %s does not return a composite literal", file, fd.Name.Name)
+		fail("%s: %s builds no composite literal", file, fd.Name.Name)
 	}
 	return out
 }
@@ -362,7 +359,10 @@ func genC07() string {
 	w("def c07SignerHashExpr : String := %s\n\n", leanStr(idx))
 	vf := parseFile("verifier/verifier.go")
 	vb := mustFunc(vf, "verifier/verifier.go", "verifier", "VerifyBlob")
+	// the index of `algorithms[..]`, and - when it is a local - the expression that local was bound to
+	// (whatever the local is called)
 	vidx, vsrc := "", ""
+	defs := map[string]string{}
 	ast.Inspect(vb.Body, func(n ast.Node) bool {
 		switch x := n.(type) {
 		case *ast.AssignStmt:
@@ -370,18 +370,24 @@ func genC07() string {
 				if ie, ok := x.Rhs[0].(*ast.IndexExpr); ok && exprText(ie.X) == "algorithms" {
 					vidx = exprText(ie.Index)
 				}
-				if exprText(x.Lhs[0]) == "cryptoHash" {
-					vsrc = exprText(x.Rhs[0])
+				if id, ok := x.Lhs[0].(*ast.Ident); ok && len(x.Lhs) == 1 {
+					if _, seen := defs[id.Name]; !seen {
+						defs[id.Name] = exprText(x.Rhs[0])
+					}
 				}
 			}
 		}
 		return true
 	})
+	vsrc = vidx
+	if d, ok := defs[vidx]; ok {
+		vsrc = d
+	}
 	if vidx == "" || vsrc == "" {
 		fail("verifier/verifier.go: VerifyBlob does not derive the digest algorithm from `algorithms`")
 	}
 	w("/-- how verifier.VerifyBlob obtains the hash it indexes `algorithms` with -/\n")
-	w("def c07VerifierHashExpr : String := %s\n\n", leanStr(vidx+" := "+vsrc))
+	w("def c07VerifierHashExpr : String := %s\n\n", leanStr(vsrc))
 
 	// ---- notation-core-go tables -------------------------------------------------------
 	coreDir := c07ModuleDir("github.com/notaryproject/notation-core-go")
@@ -543,15 +549,8 @@ func genC07() string {
 		w("def c07%sFirstCall : String := %s\n\n", fn, leanStr(first))
 	}
 
-	// what notation.VerifyBlob returns on success, and what UserMetadata() returns
-	vbf := mustFunc(nfile, nf, "", "VerifyBlob")
-	last := vbf.Body.List[len(vbf.Body.List)-1]
-	ret := ""
-	if r, ok := last.(*ast.ReturnStmt); ok && len(r.Results) == 3 {
-		ret = exprText(r.Results[0])
-	}
-	w("/-- the descriptor expression of the final (success) return of notation.VerifyBlob -/\n")
-	w("def c07VerifyBlobReturns : String := %s\n\n", leanStr(ret))
+	// what UserMetadata() returns (what notation.VerifyBlob returns is tied through the translated source:
+	// Tie.source_VerifyBlob_refines_model)
 	umf := mustFunc(nfile, nf, "VerificationOutcome", "UserMetadata")
 	lastU := umf.Body.List[len(umf.Body.List)-1]
 	retU := ""
